@@ -209,9 +209,14 @@ func (or *ObjectRegistry) applyConfig(config map[string]string) {
 			continue
 		}
 
-		if prevEntity != nil {
+		if prevEntity != nil && prevEntity.Spec().Kind() == entity.Spec().Kind() {
 			updated[name] = entity
 		} else {
+			if prevEntity != nil {
+				// the kind of the object changed, the new object can't inherit
+				// from the old one: close the old one and create the new one.
+				deleted[name] = prevEntity
+			}
 			created[name] = entity
 		}
 		or.entities[name] = entity
